@@ -153,3 +153,116 @@ pub fn show(evs: &[SEv]) -> String {
     s.push(']');
     s
 }
+
+// ------------------------------------------------------------------------------------------------
+// Body consumption "as the wire sees it"
+
+use bytes::Bytes;
+use http::HeaderMap;
+use http_body::Body;
+
+#[derive(Clone, Debug)]
+pub enum FrameObs {
+    Data(Bytes),
+    Trailers(HeaderMap),
+    Err(Code, String),
+}
+
+#[derive(Debug, Default)]
+pub struct BodyObs {
+    pub frames: Vec<FrameObs>,
+    /// "trailers" | "error" | "none" | "end-stream-flag" | "hang" | "stalled" | "livelock"
+    pub ended_by: &'static str,
+    /// what the body returned when polled past its end (probe only; no HTTP stack sees this)
+    pub past_end: Vec<String>,
+}
+
+impl BodyObs {
+    pub fn data(&self) -> Vec<u8> {
+        let mut v = vec![];
+        for f in &self.frames {
+            if let FrameObs::Data(b) = f {
+                v.extend_from_slice(b);
+            }
+        }
+        v
+    }
+    pub fn trailers(&self) -> Vec<&HeaderMap> {
+        self.frames.iter().filter_map(|f| if let FrameObs::Trailers(t) = f { Some(t) } else { None }).collect()
+    }
+    pub fn error(&self) -> Option<(Code, String)> {
+        self.frames.iter().find_map(|f| if let FrameObs::Err(c, m) = f { Some((*c, m.clone())) } else { None })
+    }
+}
+
+/// Consume a body exactly the way hyper's HTTP/2 sender does: stop after a trailers frame, after an
+/// error, at `None`, or after a data frame when `is_end_stream()` is true.  Then poll `past` more
+/// times and record (not judge) what comes back.
+pub fn consume_body<B>(sim: &Sim, body: &mut Pin<Box<B>>, past: u32) -> BodyObs
+where
+    B: Body<Data = Bytes, Error = Status> + ?Sized,
+{
+    let flag = Flag::new();
+    let waker = Waker::from(flag.clone());
+    let mut cx = Context::from_waker(&waker);
+    let mut obs = BodyObs::default();
+    let mut pendings = 0u64;
+    obs.ended_by = loop {
+        if body.is_end_stream() {
+            break "end-stream-flag";
+        }
+        flag.take();
+        match body.as_mut().poll_frame(&mut cx) {
+            Poll::Ready(None) => break "none",
+            Poll::Ready(Some(Err(s))) => {
+                sim.ev(|| format!("wire: body error {:?} {:?}", s.code(), s.message()));
+                obs.frames.push(FrameObs::Err(s.code(), s.message().to_string()));
+                break "error";
+            }
+            Poll::Ready(Some(Ok(f))) => {
+                if f.is_data() {
+                    let d = f.into_data().unwrap();
+                    sim.ev(|| format!("wire: DATA {}B {}", d.len(), crate::seams::hex_head(&d)));
+                    obs.frames.push(FrameObs::Data(d));
+                } else if f.is_trailers() {
+                    let t = f.into_trailers().unwrap();
+                    sim.ev(|| format!("wire: TRAILERS {:?}", t));
+                    obs.frames.push(FrameObs::Trailers(t));
+                    break "trailers";
+                }
+            }
+            Poll::Pending => {
+                if !flag.is_set() {
+                    break if sim.stalled() { "stalled" } else { "hang" };
+                }
+                pendings += 1;
+                if pendings > 200_000 || obs.frames.len() > 100_000 {
+                    break "livelock";
+                }
+            }
+        }
+        if obs.frames.len() > 100_000 {
+            break "livelock";
+        }
+    };
+    if !matches!(obs.ended_by, "hang" | "stalled" | "livelock") {
+        for _ in 0..past {
+            flag.take();
+            let s = match body.as_mut().poll_frame(&mut cx) {
+                Poll::Ready(None) => "None".to_string(),
+                Poll::Ready(Some(Err(s))) => format!("Err({:?})", s.code()),
+                Poll::Ready(Some(Ok(f))) => {
+                    if f.is_data() {
+                        format!("Data({}B)", f.into_data().unwrap().len())
+                    } else {
+                        "Trailers".to_string()
+                    }
+                }
+                Poll::Pending => "Pending".to_string(),
+            };
+            sim.ev(|| format!("wire(past end, not on the wire): {s}"));
+            obs.past_end.push(s);
+        }
+    }
+    obs
+}
